@@ -115,7 +115,7 @@ Lemma alt_tw els : Forall TWe els -> forallb wf_el els = true -> forall i w ts,
   has_alt els i w -> val_wf w -> enc_nth encode els i w = Ok ts -> forallb wf_tag ts = true.
 Proof.
   induction 1 as [|e r He _ IH]; intros Hw i w ts Ha Hv Henc; [destruct i; contradiction|].
-  cbn [forallb] in Hw. split_andb. destruct i as [|j]; cbn [has_alt enc_nth] in *.
+  cbn [forallb] in Hw. split_andb. destruct i as [|j]; cbn [has_alt enc_nth] in *; destruct Ha as [_ Ha].
   - (* enc_alt e w = enc_el e (Some w) for every element kind *)
     destruct e as [t c o]. apply (He ltac:(assumption) (Some w) ts Ha Hv).
     destruct t; cbn [enc_alt enc_el] in *; try exact Henc.
@@ -154,9 +154,16 @@ Proof.
     cbn [has_ty] in Hv. cbn [wf_ty] in Hwf. split_andb. apply val_wf_list in Hw. cbn [encode] in He.
     eapply list_tw; eauto.
   - intros s f Hs Hwf v ts Hv Hw He. destruct v as [| | | |vs]; try contradiction.
-    cbn [has_ty] in Hv. cbn [wf_ty] in Hwf. split_andb. apply val_wf_list in Hw. cbn [encode] in He.
+    cbn [has_ty] in Hv. destruct Hv as [Hv _]. cbn [wf_ty] in Hwf. split_andb. apply val_wf_list in Hw. cbn [encode] in He.
     destruct f as [n|]; [destruct (lenN vs =? n); [|discriminate]|]; eapply list_tw; eauto.
-  - intros _ v ts Hv. contradiction.
+  - intros _ v ts Hv Hw He. destruct (has_ty_namevalue v Hv) as (n & Hn & Hcases).
+    destruct Hcases as [->|[(x & H12 & Hx & ->)|(d & t & Hd & Ht & ->)]];
+      cbn [encode enc_namevalue] in He; apply bind_ok in He as [n' [Ha He]]; injection He as <-;
+      cbn in Hw; cbn [forallb];
+      rewrite (leaf_ctx_wf 7 0 n n' ltac:(lia) Hn ltac:(tauto) Ha); cbn [andb].
+    + reflexivity.
+    + destruct Hw as [_ [Hw _]]. rewrite Hw. reflexivity.
+    + destruct Hw as [_ [[Hw1 [Hw2 _]] _]]. rewrite Hw1, Hw2. reflexivity.
   - exact el_tw.
 Qed.
 
